@@ -14,8 +14,13 @@ import (
 	"github.com/rkosegi/yaml-toolkit/utils"
 )
 
-var c16Segs = []string{"a", "b", "c", "db", "host", "log", "logging", "port", "ports", "x-y", "k_1", "0", "12"}
+var c16Segs = []string{"a", "b", "c", "db", "host", "log", "logging", "port", "ports", "x-y", "k_1", "0", "12", "DB", "Host", "Log"}
 var c16Vals = []string{"1", "x", "hello", "true", "a b", "v-1", "0.5", "é世", "http//h", "", "80%", "%d %s - done", "100%%", "a%20b", "${a}", "${HOME}", "x${nope}y", "$a {b}"}
+
+var c16LongVals = []string{
+	// long values (blanks and tabs around byte offsets 80 and 160), and non-ASCII text long enough to cross any read-ahead boundary at either parity
+	strings.Repeat("w", 79) + " and  then\tmore", strings.Repeat("w", 80) + "   " + strings.Repeat("v", 77) + "   end", strings.Repeat("n-03.example.org, ", 12),
+	strings.Repeat("é", 300), "x" + strings.Repeat("é", 300) + " Košice"}
 
 func c16Key(r *rand.Rand) string {
 	n := 1 + r.Intn(3)
@@ -64,6 +69,9 @@ func c16GenKV(r *rand.Rand, conflictFree bool) map[string]string {
 		}
 		if ok {
 			kv[k] = c16Vals[r.Intn(len(c16Vals))]
+			if r.Intn(12) == 0 {
+				kv[k] = c16LongVals[r.Intn(len(c16LongVals))]
+			}
 		}
 	}
 	return kv
@@ -294,7 +302,7 @@ func init() {
 	mprops.ErrorHandler = mprops.PanicHandler
 	register(&Prop{
 		ID:   "C16",
-		Rule: "finite sets of (dotted key, plain string value incl. the empty string and values containing %), 1-6 keys of 1-3 path-safe segments drawn from a pool with textual-prefix siblings (log/logging, port/ports, db/dbname-like), half conflict-free and half allowed to conflict (a key that is a dotted prefix of another). kinds: unflatten (utils.Unflatten x50), fromprops (Builder().FromProperties x50), decode (properties text through props.DecoderFn and the file-suffix provider x50; encoder->decoder round trips with EncoderFn, the provider's encoder and DomEncoderFn). Go-side: flatten == kv when conflict-free; all 50 repeats identical for every key set. The resulting tree is compared with the Coq model (sorted-key processing). Non-trivial: key set has a shared dotted prefix. Distinct by Gallina term.",
+		Rule: "finite sets of (dotted key, plain string value incl. the empty string and values containing %), 1-6 keys of 1-3 path-safe segments drawn from a pool with textual-prefix siblings (log/logging, port/ports, db/dbname-like), half conflict-free and half allowed to conflict (a key that is a dotted prefix of another). kinds: unflatten (utils.Unflatten x50), fromprops (Builder().FromProperties x50), decode (properties text through props.DecoderFn and the file-suffix provider x50; encoder->decoder round trips with EncoderFn, the provider's encoder and DomEncoderFn). Go-side: flatten == kv when conflict-free; all 50 repeats identical for every key set. The resulting tree is compared with the Coq model (sorted-key processing). Non-trivial: key set has a shared dotted prefix. Distinct by Gallina term. Values longer than 80 bytes with blanks around offsets 80/160, 600-byte non-ASCII values, segments differing only in letter case.",
 		Corpus: func() []Case {
 			return []Case{
 				c16Case(nil, map[string]string{"a": "1", "a.b": "2"}, 0), // pinned: order dependent
